@@ -145,7 +145,11 @@ func genArMembers(r *core.Rand) []arMember {
 	for n := r.Intn(6); n > 0; n-- {
 		m := arMember{Name: r.Pick([]string{"debian-binary", "control.tar.gz", "data.tar.xz", "a", "sixteen-bytes-nm", "x.y", "_gpgorigin", "file with sp", "é"}),
 			TS: strconv.Itoa(r.Intn(2000000000)), UID: strconv.Itoa(r.Intn(1000)), GID: strconv.Itoa(r.Intn(1000)), Mode: r.Pick([]string{"100644", "644", "100755", ""})}
-		if r.Chance(1, 4) {
+		if r.Chance(1, 3) {
+			// names of every length 1..16, so that a GNU "name/" can fill the whole column
+			m.Name = r.Str("abcxyz.-_0", r.Range(1, 16))
+		}
+		if r.Chance(1, 3) {
 			m.Slash = len(m.Name) < 16
 		}
 		if r.Chance(1, 5) {
